@@ -993,6 +993,11 @@ impl JsString {
     pub fn parse<F: core::str::FromStr>(&self) -> Result<F, F::Err> {
         self.0.parse()
     }
+
+    /// True if both are the very same allocation (what `VarKey` compares), not merely equal text.
+    pub fn ptr_eq(&self, other: &JsString) -> bool {
+        Rc::ptr_eq(&self.0, &other.0)
+    }
 }
 
 impl AsRef<str> for JsString {
